@@ -151,7 +151,7 @@ func (g *wasmGen) valTOTP(tag string, probe bool) {
 	k, sec := g.key()
 	per := uint64(1 + c.rng.Intn(3600))
 	if c.rng.Intn(3) == 0 {
-		per = 30
+		per = []uint64{30, 30, 1, 2, 60, 3599, 3600}[c.rng.Intn(7)] // incl. both ends of the period range
 	}
 	s := uint64(c.rng.Intn(11))
 	ts := g.num53()
